@@ -44,14 +44,26 @@ def gen_case(rng):
     n = len(pins)
     two = rng.random() < 0.3
     if two:
-        a = sorted({awkward(rng, 1.0, 2.0) for _ in range(rng.randint(2, 3))})
-        b = sorted({awkward(rng, 0.0, 1.0) for _ in range(rng.randint(2, 3))})
+        def spaced(vals, gap):
+            out = []
+            for v in sorted(vals):
+                if not out or v - out[-1] > gap:
+                    out.append(v)
+            return out
+        # scipy's LinearNDInterpolator (Qhull) needs a non-degenerate grid: keep the nodes well separated
+        a = spaced({awkward(rng, 1.0, 2.0) for _ in range(rng.randint(2, 3))}, 1e-2)
+        b = spaced({awkward(rng, 0.0, 1.0) for _ in range(rng.randint(2, 3))}, 1e-2)
         if len(a) < 2 or len(b) < 2:
             return None
         A, B = np.meshgrid(a, b, indexing="ij")
         params = {"wl": A.reshape(-1), "PS": B.reshape(-1)}
     else:
         a = sorted({awkward(rng, 1.0, 2.0) for _ in range(rng.randint(2, 6))})
+        if rng.random() < 0.3:
+            # a cluster of very closely spaced sweep points (relative spacing 1e-6 .. 1e-9)
+            base = awkward(rng, 1.0, 2.0)
+            step = base * 10.0 ** (-rng.randint(6, 9))
+            a = sorted(set(a) | {base + j * step for j in range(rng.randint(2, 4))})
         if len(a) < 2:
             return None
         params = {"wl": np.array(a)}
